@@ -72,6 +72,89 @@ Lemma sem_combine ops vals : forall (l : @tagged D),
   sem C ops vals l = combine (map (opsf ops) (tids l)) (map (nval C vals) (map cnode (map snd l))).
 Proof. induction l as [|[j y] tl IH]; [reflexivity|]. cbn. f_equal. exact IH. Qed.
 
+Lemma all_numok_forall : forall (l : @tagged D) x, all_numok x l -> forall a, In a (x :: map snd l) -> numok a.
+Proof.
+  induction l as [|[j y] tl IH]; intros x H a Ha.
+  - destruct Ha as [<-|[]]. exact H.
+  - cbn [all_numok] in H. destruct H as [Hx Hy]. destruct Ha as [<-|Ha]; [exact Hx|]. exact (IH y Hy a Ha).
+Qed.
+
+Definition level_pv (vals : list D) (nodes : list (fnode D)) (ops : list fop) : D :=
+  match nodes with [] => dflt C | x :: r => pv C (nval C vals x) (combine ops (map (nval C vals) r)) end.
+Definition nums_plain (nodes : list (fnode D)) : Prop := forall n, In n nodes -> forall v, nkind n = FNum v -> nun n = [].
+Definition remaining (used : list nat) (ops : list fop) : list fop :=
+  map snd (filter (fun p => negb (existsb (Nat.eqb (fst p)) used)) (combine (seq 0 (length ops)) ops)).
+
+(* the folding loop under ANY admissible key function *)
+Theorem compile_loop_preserves (ops : list fop) (keyb : nat -> Z)
+  (kb_cases : forall i, keyb i = BumpInst.key0 ops i \/ keyb i = (BumpInst.key0 ops i + 5)%Z)
+  (kb_ok : forall i, keyb i = (BumpInst.key0 ops i + 5)%Z -> forall j, j < i -> (BumpInst.key0 ops j <= BumpInst.key0 ops i)%Z ->
+     (forall k, j < k < i -> (BumpInst.key0 ops i < BumpInst.key0 ops k)%Z) -> (BumpInst.key0 ops j < BumpInst.key0 ops i)%Z \/ BumpInst.AP ops j i)
+  (n0 : fnode D) (nt : list (fnode D)) :
+  length nt = length ops -> assoc_ok ops -> nums_plain (n0 :: nt) ->
+  let sigma := sort_desc keyb (seq 0 (length ops)) in
+  exists nodes' used',
+    compile_loop C sigma 0 sigma (n0 :: nt) ops (repeat false (length (n0 :: nt))) [] = Ok (nodes', used') /\
+    length nodes' = S (length (remaining used' ops)) /\
+    (forall o, In o (remaining used' ops) -> In o ops) /\
+    var_nodes nodes' = var_nodes (n0 :: nt) /\
+    nums_plain nodes' /\
+    forall vals, R (level_pv vals nodes' (remaining used' ops)) (level_pv vals (n0 :: nt) ops).
+Proof.
+  intros Hl Hassoc Hplain sigma.
+  set (n := length ops) in *.
+  destruct (sort_desc_spec keyb n) as (HS & ND & Hiff). fold sigma in HS, ND, Hiff.
+  set (x0 := mk n0). set (l0 := combine (seq 0 n) (map mk nt)).
+  assert (Hlm : length (seq 0 n) = length (map mk nt)) by (rewrite seq_length, map_length; lia).
+  assert (F1 : cnodes x0 l0 = n0 :: nt).
+  { unfold cnodes, l0, x0. rewrite (map_snd_combine _ _ Hlm). cbn [map mk cnode]. f_equal. rewrite map_map. cbn [mk cnode]. apply map_id. }
+  assert (F2 : cflags x0 l0 = repeat false (length (n0 :: nt))).
+  { unfold cflags, l0, x0. rewrite (map_snd_combine _ _ Hlm). cbn [map mk cdecl length repeat]. f_equal. rewrite map_map. cbn [mk cdecl].
+    clear. induction nt as [|a l IH]; [reflexivity|]. cbn. f_equal. exact IH. }
+  assert (F3 : tids l0 = seq 0 n) by (unfold tids, l0; apply (map_fst_combine _ _ Hlm)).
+  assert (HI : Inv ops sigma [] x0 l0).
+  { constructor.
+    - unfold l0. replace n with (length (map mk nt)) by (rewrite map_length; exact Hl). apply inc_combine_seq.
+    - rewrite F3. symmetry. apply filter_true. reflexivity.
+    - intros j Hj. rewrite F3. apply in_seq. apply Hiff in Hj. lia.
+    - apply adj_ok_all. intros j Hj. rewrite F3 in Hj. apply in_seq in Hj. apply Hiff. lia.
+    - apply all_numok_all; [intros v Hv; apply (Hplain n0 (or_introl eq_refl) v Hv)|]. intros [j y] Hp. unfold l0 in Hp. apply in_combine_r in Hp.
+      apply in_map_iff in Hp. destruct Hp as (m & <- & Hm). intros v Hv. apply (Hplain m (or_intror Hm) v Hv). }
+  assert (Hpos : pos_ok sigma 0 sigma l0).
+  { intros t j Ht. exists j. split; [exact Ht|]. rewrite F3. assert (j < n) by (apply Hiff; eapply nth_error_In; exact Ht).
+    rewrite nth_error_seq by lia. reflexivity. }
+  assert (NDl : NoDup (tids l0)) by (rewrite F3; apply seq_NoDup).
+  assert (Hlt0 : forall j, In j (tids l0) -> j < length ops) by (intros j Hj; rewrite F3 in Hj; apply in_seq in Hj; fold n; lia).
+  pose proof (compile_loop_crun C ops sigma 0 sigma x0 l0 [] NDl ND Hlt0 Hpos) as Hloop.
+  pose proof (crun_vars C ops sigma x0 l0 []) as Hvars.
+  assert (Hall : forall q, q < length ops <-> In q ([] ++ sigma)) by (intros q; cbn [app]; fold n; symmetry; apply Hiff).
+  pose proof (fun vals => crun_inv C R R_refl R_sym R_trans R_bin R_un ops Hassoc keyb kb_cases kb_ok vals sigma [] [] x0 l0 HS ND Hall HI) as Hrun.
+  destruct (crun C ops sigma x0 l0 []) as [[x' l'] used'] eqn:Ecr.
+  assert (HI' : Inv ops [] used' x' l') by exact (proj1 (Hrun [])).
+  destruct HI' as [Hinc' Hids' _ _ Hnum'].
+  set (ops' := map (opsf ops) (tids l')).
+  assert (Eops' : remaining used' ops = ops').
+  { unfold remaining. change (fun p : nat * fop => negb (existsb (Nat.eqb (fst p)) used')) with (fun p : nat * fop => notin used' (fst p)).
+    rewrite (filter_combine_seq (notin used') dummy_op ops 0). unfold ops'. rewrite Hids'. apply map_ext. intros j. rewrite Nat.sub_0_r. reflexivity. }
+  exists (cnodes x' l'), used'. rewrite Eops'.
+  assert (Hlen' : length (map cnode (map snd l')) = length ops') by (unfold ops', tids; rewrite !map_length; reflexivity).
+  split; [rewrite <- F2, <- F1; exact Hloop|].
+  split; [unfold cnodes; cbn [map length]; rewrite Hlen'; reflexivity|].
+  split.
+  { intros o Ho. unfold ops' in Ho. apply in_map_iff in Ho. destruct Ho as (j & <- & Hj). rewrite Hids' in Hj. apply filter_In in Hj.
+    destruct Hj as [Hj _]. apply in_seq in Hj. unfold opsf. apply nth_In. lia. }
+  split; [rewrite Hvars, F1; reflexivity|].
+  split.
+  { intros m Hm v Hv. unfold cnodes in Hm. apply in_map_iff in Hm. destruct Hm as (a & <- & Ha). exact (all_numok_forall l' x' Hnum' a Ha v Hv). }
+  intros vals. pose proof (proj2 (Hrun vals)) as HR. unfold pvs in HR. rewrite !sem_combine in HR.
+  fold ops' in HR. rewrite F3 in HR. unfold l0 in HR at 1. rewrite (map_snd_combine _ _ Hlm) in HR.
+  replace (map (opsf ops) (seq 0 n)) with ops in HR.
+  2:{ unfold opsf, n. rewrite <- (map_nth_seq dummy_op ops 0) at 1. apply map_ext. intros j. rewrite Nat.sub_0_r. reflexivity. }
+  unfold cval, x0 in HR. cbn [mk cnode] in HR.
+  replace (map cnode (map mk nt)) with nt in HR by (rewrite map_map; cbn [mk cnode]; symmetry; apply map_id).
+  exact HR.
+Qed.
+
 Theorem compile_preserves (fx : flatex D) : flat_wf fx -> assoc_ok (fops fx) ->
   exists fx', compile C true fx = Ok fx' /\ flat_wf fx' /\ fvars fx' = fvars fx /\ ftext fx' = ftext fx /\
     (forall o, In o (fops fx') -> In o (fops fx)) /\
@@ -84,77 +167,42 @@ Proof.
   destruct fx as [nodes ops prios vars text]. unfold flat_wf, assoc_ok. cbn [fnodes fops fprios fvars ftext].
   intros [Hlen Hprios] Hassoc. subst prios.
   destruct nodes as [|n0 nt]; [discriminate|]. cbn [length] in Hlen. assert (Hl : length nt = length ops) by lia. clear Hlen.
-  set (n := length ops) in *.
-  set (sigma := prioritized_indices_flat true ops (n0 :: nt)).
-  destruct (sort_desc_spec (key true (n0 :: nt) ops) n) as (HS & ND & Hiff). fold sigma in HS, ND, Hiff. unfold prioritized_indices_flat in sigma. fold n in sigma. fold sigma in HS, ND, Hiff.
-  set (x0 := mk (pre_apply n0)). set (l0 := combine (seq 0 n) (map mk (map pre_apply nt))).
-  assert (Hlm : length (seq 0 n) = length (map mk (map pre_apply nt))) by (rewrite seq_length, !map_length; lia).
-  assert (F1 : cnodes x0 l0 = map pre_apply (n0 :: nt)).
-  { unfold cnodes, l0, x0. rewrite (map_snd_combine _ _ Hlm). cbn [map mk cnode]. f_equal. rewrite map_map. cbn [mk cnode]. apply map_id. }
-  assert (F2 : cflags x0 l0 = repeat false (length (map pre_apply (n0 :: nt)))).
-  { unfold cflags, l0, x0. rewrite (map_snd_combine _ _ Hlm). cbn [map mk cdecl length repeat]. f_equal. rewrite !map_map. cbn [mk cdecl].
-    rewrite map_length. clear. induction nt as [|a l IH]; [reflexivity|]. cbn. f_equal. exact IH. }
-  assert (F3 : tids l0 = seq 0 n) by (unfold tids, l0; apply (map_fst_combine _ _ Hlm)).
-  (* the initial invariant *)
-  assert (HI : Inv ops sigma [] x0 l0).
-  { constructor.
-    - unfold l0. replace n with (length (map mk (map pre_apply nt))) by (rewrite !map_length; exact Hl). apply inc_combine_seq.
-    - rewrite F3. symmetry. apply filter_true. reflexivity.
-    - intros j Hj. rewrite F3. apply in_seq. apply Hiff in Hj. lia.
-    - apply adj_ok_all. intros j Hj. rewrite F3 in Hj. apply in_seq in Hj. apply Hiff. lia.
-    - apply all_numok_all; [apply numok_pre_apply|]. intros [j y] Hp. unfold l0 in Hp. apply in_combine_r in Hp.
-      rewrite map_map in Hp. apply in_map_iff in Hp. destruct Hp as (m & <- & _). apply numok_pre_apply. }
-  assert (Hpos : pos_ok sigma 0 sigma l0).
-  { intros t j Ht. exists j. split; [exact Ht|]. rewrite F3. assert (j < n) by (apply Hiff; eapply nth_error_In; exact Ht).
-    rewrite nth_error_seq by lia. reflexivity. }
-  assert (NDl : NoDup (tids l0)) by (rewrite F3; apply seq_NoDup).
-  assert (Hlt0 : forall j, In j (tids l0) -> j < length ops) by (intros j Hj; rewrite F3 in Hj; apply in_seq in Hj; fold n; lia).
-  pose proof (compile_loop_crun C ops sigma 0 sigma x0 l0 [] NDl ND Hlt0 Hpos) as Hloop.
-  pose proof (crun_vars C ops sigma x0 l0 []) as Hvars.
-  assert (Hall : forall q, q < length ops <-> In q ([] ++ sigma)) by (intros q; cbn [app]; fold n; symmetry; apply Hiff).
-  pose proof (fun vals => crun_inv C R R_refl R_sym R_trans R_bin R_un (n0 :: nt) ops Hassoc vals sigma [] [] x0 l0 HS ND Hall HI) as Hrun.
-  destruct (crun C ops sigma x0 l0 []) as [[x' l'] used'] eqn:Ecr.
-  assert (HI' : Inv ops [] used' x' l') by exact (proj1 (Hrun [])).
-  destruct HI' as [Hinc' Hids' _ _ _].
-  set (ops' := map (opsf ops) (tids l')).
-  assert (Eops' : map snd (filter (fun p => negb (existsb (Nat.eqb (fst p)) used')) (combine (seq 0 (length ops)) ops)) = ops').
-  { change (fun p : nat * fop => negb (existsb (Nat.eqb (fst p)) used')) with (fun p : nat * fop => notin used' (fst p)).
-    rewrite (filter_combine_seq (notin used') dummy_op ops 0). unfold ops'. rewrite Hids'. apply map_ext. intros j. rewrite Nat.sub_0_r. reflexivity. }
-  exists {| fnodes := cnodes x' l'; fops := ops'; fprios := prioritized_indices_flat true ops' (cnodes x' l'); fvars := vars; ftext := text |}.
-  assert (Hlen' : length (map cnode (map snd l')) = length ops') by (unfold ops', tids; rewrite !map_length; reflexivity).
-  assert (Hsub : forall o, In o ops' -> In o ops).
-  { intros o Ho. unfold ops' in Ho. apply in_map_iff in Ho. destruct Ho as (j & <- & Hj). rewrite Hids' in Hj. apply filter_In in Hj.
-    destruct Hj as [Hj _]. apply in_seq in Hj. unfold opsf. apply nth_In. lia. }
-  assert (Hv' : var_nodes (cnodes x' l') = var_nodes (n0 :: nt)).
-  { rewrite Hvars, F1. apply var_nodes_pre_apply. }
+  assert (Hplain : nums_plain (pre_apply n0 :: map pre_apply nt)).
+  { intros m Hm v Hv. change (pre_apply n0 :: map pre_apply nt) with (map pre_apply (n0 :: nt)) in Hm. apply in_map_iff in Hm.
+    destruct Hm as (m0 & <- & _). exact (numok_pre_apply m0 v Hv). }
+  destruct (compile_loop_preserves ops (BumpInst.keyb (n0 :: nt) ops) (BumpInst.key_cases (n0 :: nt) ops) (BumpInst.BumpOK (n0 :: nt) ops)
+              (pre_apply n0) (map pre_apply nt) ltac:(rewrite map_length; exact Hl) Hassoc Hplain)
+    as (nodes' & used' & Hloop & Hlen' & Hsub & Hv' & _ & HR).
+  set (ops' := remaining used' ops) in *.
+  exists {| fnodes := nodes'; fops := ops'; fprios := prioritized_indices_flat true ops' nodes'; fvars := vars; ftext := text |}.
+  change (pre_apply n0 :: map pre_apply nt) with (map pre_apply (n0 :: nt)) in *.
+  rewrite var_nodes_pre_apply in Hv'.
   split; [|split; [|split; [reflexivity|split; [reflexivity|split; [exact Hsub|split; [exact Hv'|]]]]]].
-  - unfold compile. cbn [fnodes fops fprios fvars ftext]. fold sigma.
+  - unfold compile. cbn [fnodes fops fprios fvars ftext].
     change (map (fun n1 : fnode D => match nkind n1 with
                                      | FNum d => {| nkind := FNum (apply_un C (nun n1) d); nun := [] |}
                                      | FVar _ => n1 end) (n0 :: nt)) with (map pre_apply (n0 :: nt)).
-    rewrite <- F2, <- F1, Hloop. cbn [bind]. rewrite Eops'. reflexivity.
-  - unfold flat_wf. cbn [fnodes fops fprios]. split; [|reflexivity]. unfold cnodes. cbn [map length]. rewrite Hlen'. reflexivity.
+    unfold prioritized_indices_flat at 1 2. unfold BumpInst.keyb in Hloop.
+    change (fun i : nat => key true (n0 :: nt) ops i) with (key true (n0 :: nt) ops) in Hloop. rewrite Hloop. cbn [bind]. reflexivity.
+  - unfold flat_wf. cbn [fnodes fops fprios]. split; [exact Hlen'|reflexivity].
   - intros vals. cbn [fnodes fops fprios].
-    assert (Hrange : in_range vals (cnodes x' l') <-> in_range vals (n0 :: nt)).
+    assert (Hrange : in_range vals nodes' <-> in_range vals (n0 :: nt)).
     { rewrite !in_range_var_nodes, Hv'. reflexivity. }
+    destruct nodes' as [|m0 mt]; [discriminate|]. cbn [length] in Hlen'.
     split.
     + intros Hr.
       destruct (eval_numbers_is_pev C R R_refl R_sym R_trans R_bin R_un vals n0 nt ops Hl Hassoc) as (v & Ev & Rv).
-      destruct (eval_numbers_is_pev C R R_refl R_sym R_trans R_bin R_un vals (cnode x') (map cnode (map snd l')) ops' Hlen'
+      destruct (eval_numbers_is_pev C R R_refl R_sym R_trans R_bin R_un vals m0 mt ops' ltac:(lia)
                   (fun o Ho => Hassoc o (Hsub o Ho))) as (v' & Ev' & Rv').
       exists v, v'. split; [|split].
       * unfold eval_cloning. cbn [fnodes fops fprios]. rewrite (mapM_node_val_range C vals _ Hr). cbn [bind]. exact Ev.
       * unfold eval_cloning. cbn [fnodes fops fprios]. rewrite (mapM_node_val_range C vals _ (proj2 Hrange Hr)). cbn [bind]. exact Ev'.
       * eapply R_trans; [exact Rv'|]. eapply R_trans; [|apply R_sym; exact Rv].
-        pose proof (proj2 (Hrun vals)) as HR. unfold pvs in HR. rewrite !sem_combine in HR.
-        fold ops' in HR. rewrite F3 in HR. unfold l0 in HR at 1. rewrite (map_snd_combine _ _ Hlm) in HR.
-        replace (map (opsf ops) (seq 0 n)) with ops in HR.
-        2:{ unfold opsf, n. rewrite <- (map_nth_seq dummy_op ops 0) at 1. apply map_ext. intros j. rewrite Nat.sub_0_r. reflexivity. }
-        unfold cval, x0 in HR. cbn [mk cnode] in HR. rewrite nval_pre_apply in HR.
-        replace (map (nval C vals) (map cnode (map mk (map pre_apply nt)))) with (map (nval C vals) nt) in HR.
-        2:{ rewrite !map_map. apply map_ext. intros m. cbn [mk cnode]. symmetry. apply nval_pre_apply. }
+        specialize (HR vals). unfold level_pv in HR. cbn [map] in HR. rewrite nval_pre_apply in HR.
+        replace (map (nval C vals) (map pre_apply nt)) with (map (nval C vals) nt) in HR.
+        2:{ rewrite map_map. apply map_ext. intros m. symmetry. apply nval_pre_apply. }
         exact HR.
     + intros Hr. unfold eval_cloning. cbn [fnodes fops fprios].
-      rewrite (mapM_node_val_fail C vals _ Hr). rewrite (mapM_node_val_fail C vals (cnodes x' l') (fun H => Hr (proj1 Hrange H))). split; reflexivity.
+      rewrite (mapM_node_val_fail C vals _ Hr). rewrite (mapM_node_val_fail C vals (m0 :: mt) (fun H => Hr (proj1 Hrange H))). split; reflexivity.
 Qed.
 End CompileCorrect.
